@@ -1,6 +1,9 @@
 """C12 — a parse depends only on configuration, source and env: no hidden shared state."""
 from __future__ import annotations
 
+import os
+import sys
+
 import copy
 import hashlib
 
@@ -41,7 +44,7 @@ OPTS = [("breaks", True), ("breaks", False), ("xhtmlOut", False), ("xhtmlOut", T
 
 
 def floors(tier):
-    return dict(_floors0(tier), **{'env_observer.renders': 150, 'env_observer.env_nonempty': 60})
+    return dict(_floors0(tier), **{'env_observer.renders': 150, 'env_observer.env_nonempty': 60, 'order.documents': 2000})
 
 
 def _floors0(tier):
@@ -384,8 +387,78 @@ def check_case(ctx, case):
 def replay(ctx, case):
     if case.get("kind") == "envobs":
         env_case(ctx, case)
+    elif case.get("kind") == "order":
+        order_case(ctx, case)
     else:
         check_case(ctx, case)
+
+
+# ---- order independence across processes: memos that live for the whole process and are keyed too coarsely -------------------------------
+def order_docs(part, nparts):
+    """(panel index, source) pairs likely to collide in a badly keyed process-wide memo: character references whose names differ in
+    case only or whose digits are spelled differently, in text and in titles/destinations/info strings; characters that agree in
+    their low 16 bits, in their lower-cased or case-folded form, next to delimiter runs and quotes; labels that differ in case"""
+    import unicodedata
+    from markdown_it.common.entities import entities
+    groups = {}
+    for k in entities:
+        groups.setdefault(k.lower(), []).append(k)
+    twins = sorted(v for v in groups.values() if len(v) > 1)
+    sets = []   # documents that belong together stay in the same part (the same pair of processes)
+    frames = ["&{e}; x", '[t](/u "&{e};")', "[t](/&{e};)", "```&{e};\nc\n```", '[r]: /u "&{e};"\n\n[r]', "![&{e};](s '&{e};')"]
+    for gi, g in enumerate(twins):
+        sets.append([(0, frames[(gi + k) % len(frames)].replace("{e}", name)) for k in (0, 1) for name in g])
+    nums = ["#xD800", "#0", "#150", "#x41", "#X41", "#65", "#065", "#x110000", "#xFFFE", "#1114111", "#x1F600", "#128512", "#x00041", "#x2D800", "#xD7FF", "#xE000"]
+    for num in nums:
+        sets.append([(0, f.replace("{e}", num)) for f in frames])
+    sets.append([(0, frames[0].replace("{e}", n)) for n in nums] + [(0, frames[1].replace("{e}", n)) for n in nums])
+    punct = [c for c in range(0x80, 0x10000) if unicodedata.category(chr(c)).startswith("P")]
+    for i, c in enumerate(punct[::7]):
+        grp = []
+        for twin in (c, c + 0x10000, c + 0x20000):
+            ch = chr(twin)
+            grp.append((1, f"*a{ch}* b {ch}*c* d*{ch}e* ~~{ch}f~~ _{ch}g_ h{ch}_i_"))
+            grp.append((5, f"\"{ch}q\" '{ch}' x{ch}'s"))
+        sets.append(grp)
+    for a, b in [("ǅ", "ǆ"), ("ß", "SS"), ("İ", "i̇"), ("K", "k"), ("ſ", "s"), ("ﬁ", "fi"), ("Σ", "ς")]:
+        sets.append([(0, f"[{a}]: /1\n\n[{b}] [{a}]"), (0, f"[{b}]: /2\n\n[{a}] [{b}]")])
+    return [d for i, grp in enumerate(sets) if i % nparts == part for d in grp]
+
+
+def render_list(docs):
+    from markdown_it import MarkdownIt
+    out = []
+    for pi, src in docs:
+        try:
+            out.append(MarkdownIt(PANEL[pi][0], dict(PANEL[pi][1])).render(src))
+        except Exception as e:
+            out.append(f"EXC {type(e).__name__}: {e}")
+    return out
+
+
+def order_case(ctx, case):
+    """every document renders the same in this process (documents in list order) and in a fresh interpreter (reverse order)"""
+    import json
+    import subprocess
+    ctx.count("evaluations")
+    ctx.current = case
+    docs = order_docs(case["part"], case["nparts"])
+    here = render_list(docs)
+    code = ("import json,sys; from vf.mon.c12 import order_docs, render_list; d = order_docs(%d, %d); r = render_list(d[::-1]); "
+            "sys.stdout.write(json.dumps(r[::-1]))" % (case["part"], case["nparts"]))
+    try:
+        pr = subprocess.run([sys.executable, "-c", code], capture_output=True, text=True, timeout=600, cwd=os.path.dirname(os.path.dirname(os.path.dirname(os.path.abspath(__file__)))))
+        there = json.loads(pr.stdout)
+    except Exception as e:
+        ctx.count("order.subprocess_failed")
+        ctx.info["order_subprocess_error"] = f"{type(e).__name__}: {e}"[:300]
+        return
+    ctx.count("order.documents", len(docs))
+    ctx.nontrivial("order", case["part"], case["nparts"])
+    for (pi, src), a, b in zip(docs, here, there):
+        if a != b:
+            ctx.violation("result-depends-on-process-history", f"document {src!r} ({PANEL[pi]}) renders {a[:200]!r} in a process that handled the list in order, {b[:200]!r} in a fresh process that handled it in reverse order", dict(case, kind="order"))
+            return
 
 
 def env_observer(preset, opts):
@@ -432,6 +505,7 @@ def env_case(ctx, case):
 
 def run(ctx):
     rng = ctx.rng
+    order_case(ctx, {"part": ctx.shard, "nparts": ctx.nshards})   # first: this process has no history yet
     init_pristine()
     k = 0
     for pi in range(len(PANEL)):
